@@ -1080,7 +1080,7 @@ pub fn check(tier: Tier) -> ! {
     }
     let env = Arc::new(Env {
         scratch: scratch.clone(),
-        memo: if thorough { None } else { Some(Mutex::new(HashMap::new())) },
+        memo: Some(Mutex::new(HashMap::new())),
     });
 
     // ---- enumerate ----
@@ -1377,7 +1377,7 @@ pub fn check(tier: Tier) -> ! {
     res.assumptions.push("Replay of a step-bound failure configures the same FailAfter bound on the replaying Runner (shuttle::replay uses the default 1_000_000 bound, under which the short schedule cannot end in that failure); all other kinds are replayed with shuttle::replay / shuttle::replay_from_file exactly as the emitted message says.".into());
     res.assumptions.push("'A message naming the condition' is decided as: String/&str payload containing \"deadlock\" resp. \"max_steps bound <N>\". 'Reproduces the same failure' = the replay run unwinds with a payload of the same type and the same text (for deadlocks the same blocked-task list).".into());
     res.assumptions.push("Emission is attributed to a run by marker lines the child writes to stderr around every run and by directory snapshots taken after every run; every run of a history owns its own directory unless the family is `shared-directory`.".into());
-    res.assumptions.push("Quick tier: earlier runs are drawn from the representative subset {passing, panic in a spawned thread, lost-notify deadlock, same kind as the judged run}; replays are memoised per (body, string-or-file, schedule text). Thorough tier: all kinds for <= 2 earlier runs, representative subset for 3 earlier runs, every replay executed literally.".into());
+    res.assumptions.push("Quick tier: earlier runs are drawn from the representative subset {passing, panic in a spawned thread, lost-notify deadlock, same kind as the judged run} (two earlier runs: {passing, same kind}). Thorough tier: all kinds for <= 2 earlier runs, representative subset for 3 earlier runs. Replays are memoised per (body, replay-from-string or replay-from-file, schedule text): each distinct triple is replayed once in a fresh process, which is sound because a replay in a fresh process is a function of exactly these inputs.".into());
     res.assumptions.push("PortfolioRunner: members run on OS threads; bodies hold no lock across a scheduling point so that the stop signal cannot hit F11; the portfolio verdict is compared with the members' measured solo verdicts.".into());
     let _ = std::fs::remove_dir_all(&scratch);
     let _ = std::fs::remove_dir(scratch_base());
@@ -1394,6 +1394,7 @@ fn judge_portfolios(results: &[Option<HistoryResult>], solo: &BTreeMap<Sched, bo
     let have_pass = solo.values().any(|v| !*v);
     let have_fail = solo.values().any(|v| *v);
     let mut any_pf = false;
+    let mut pf_found: Vec<(String, String, Value)> = Vec::new();
     for r in results.iter().flatten() {
         let pos = r.runs.len() - 1;
         let pf = match &r.runs[pos].portfolio {
@@ -1471,7 +1472,7 @@ fn judge_portfolios(results: &[Option<HistoryResult>], solo: &BTreeMap<Sched, bo
             },
         ));
         for (key, s) in found {
-            res.finding(
+            pf_found.push((
                 key,
                 format!(
                     "[{}]: {}; portfolio returned {}; members' solo verdicts [{}]; schedules on stderr {}, new files {}, emitted in the configured way {}, of which reproducing {}",
@@ -1485,8 +1486,17 @@ fn judge_portfolios(results: &[Option<HistoryResult>], solo: &BTreeMap<Sched, bo
                     j.in_place_ok
                 ),
                 json!({"history": r.runs, "judged_run": pos, "symptom": s}),
-            );
+            ));
         }
+    }
+    // an earlier *failing* run adds nothing if the same symptom already shows after a passing run with
+    // the same persistence: report the simpler shape only
+    let keys: BTreeSet<String> = pf_found.iter().map(|f| f.0.clone()).collect();
+    for (key, what, replay) in pf_found {
+        if key.contains("fail(") && keys.contains(&key.replace("fail(", "pass(")) {
+            continue;
+        }
+        res.finding(key, what, replay);
     }
     if any_pf && !(have_pass && have_fail) {
         res.machinery_errors.push(format!(
